@@ -26,7 +26,9 @@ package lz4
 // sized by the bound.
 //@ func (Compressor).Compress
 //@   prop C08, C06
+//@   assigns rstream(source), wstream(dest)
 //@   ensures block: result == nil ==> written(dest) >= old(written(dest)) + 1
 //@ func (Compressor).CompressWithLength
-//@   prop C08, C06
+//@   prop C08, C06, C05
+//@   assigns rstream(source), wstream(dest)
 //@   ensures block: result == nil ==> written(dest) >= old(written(dest)) + 5
